@@ -30,6 +30,9 @@ NAMES = ("n0", "n1", "n2", "n3")
 CONSTS = (10, "k", None, 3.5)
 BIG = tuple("m%d" % i for i in range(300))
 BIGC = tuple(1000 + i for i in range(300))
+HUGE = tuple("h%d" % i for i in range(66000))       # tables beyond 65536 entries: operands that need two EXTENDED_ARG prefixes
+HUGEC = tuple(100000 + i for i in range(66000))
+HUGE_OPERANDS = [65535, 65536, 65537, 131070, 131071, 131072, 131073] + list(range(262140, 262148))
 
 
 def cat_ops(opc):
@@ -55,17 +58,35 @@ def make_ob(tname, opc, op, cat, k, big, tier, hyph=None):
     use_src = has_interp(opc) and vt >= (3, 6)
     nbytes = (k + 1) if word else 2 * (k + 1)
     params = byte_params("b", nbytes)
+    if big == 2:
+        # a symbolic index into a 66000-entry tuple stalls CrossHair (it does not realise it the way it does for short
+        # tuples): the operand is a symbolic *choice* among the boundary values, its bytes are concrete on each path
+        params = [("w", (0, len(HUGE_OPERANDS) - 1))]
     noarg = _pick(opc, ["NOP", "POP_TOP"])
     ext_op = getattr(opc, "EXTENDED_ARG", None)
-    names = BIG if big else NAMES
-    consts = BIGC if big else CONSTS
-    varnames = BIG if big else VARNAMES
+    # (the 66000-entry table only for the category under test: every pass over a table is traced)
+    names = (HUGE if cat == "hasname" else NAMES) if big == 2 else (BIG if big else NAMES)
+    consts = (HUGEC if cat == "hasconst" else CONSTS) if big == 2 else (BIGC if big else CONSTS)
+    varnames = (HUGE if cat in ("haslocal", "hasfree") else VARNAMES) if big == 2 else (BIG if big else VARNAMES)
     cellvars = CELLVARS
     freevars = FREEVARS
     cells = cellvars + freevars
     localsplus = tuple(varnames) + tuple(c for c in cellvars if c not in varnames) + tuple(freevars)
 
+    def huge_bytes(w):
+        from crosshair.core import realize
+        v = HUGE_OPERANDS[realize(w)]
+        if word:
+            return [(v >> (8 * (nbytes - 1 - j))) & 255 for j in range(nbytes)]
+        out = []
+        for j in range(nbytes // 2):
+            u = (v >> (16 * (nbytes // 2 - 1 - j))) & 0xFFFF
+            out += [u & 255, u >> 8]
+        return out
+
     def pre(**kw):
+        if big == 2:
+            return True
         bs = [kw["b%d" % i] for i in range(nbytes)]
         arg = 0
         if word:
@@ -86,7 +107,7 @@ def make_ob(tname, opc, op, cat, k, big, tier, hyph=None):
 
     def body(**kw):
         import xdis.bytecode as B
-        bs = [kw["b%d" % i] for i in range(nbytes)]
+        bs = huge_bytes(kw["w"]) if big == 2 else [kw["b%d" % i] for i in range(nbytes)]
         items = []
         if word:
             items += [noarg, 0]
@@ -146,11 +167,12 @@ def make_ob(tname, opc, op, cat, k, big, tier, hyph=None):
         assert got is not None and got.opcode == op, "no instruction at %d" % off
         assert _same(got.argval, want), "argval: xdis %r, CPython %r (operand %r)" % (got.argval, want, arg)
 
-    return Ob(id="C03.%s.op%d.k%d%s%s" % (tshort(tname), op, k, ".big" if big else "", ".hyph" if hyph else ""), prop="C03",
+    return Ob(id="C03.%s.op%d.k%d%s%s" % (tshort(tname), op, k, (".huge" if big == 2 else ".big") if big else "", ".hyph" if hyph else ""), prop="C03",
               params=params, body=body,
               pre=pre, funcs=FUNCS, region="cmp_op-hyphenated" if hyph else "%s.%s" % (tshort(tname), opc.opname[op]),
-              skeleton="table=%s opcode=%d(%s) category=%s prefixes=%d tables=%s" % (tname, op, opc.opname[op], cat, k, "300 markers" if big else "small"),
+              skeleton="table=%s opcode=%d(%s) category=%s prefixes=%d tables=%s" % (tname, op, opc.opname[op], cat, k, ("66000 markers" if big == 2 else "300 markers") if big else "small"),
               bound="operand bytes symbolic (operand < 20000)" if not big else
+              "operand: symbolic choice among 65535..65537, 131070..131073, 262140..262147 (index crossing 65535/65536, also shifted by 1 or 2 bits)" if big == 2 else
               "operand in [250,262] U [506,518] U [1018,1030] (index crossing 255/256, also when shifted by 1 or 2 bits)", timeout=60 if tier == "quick" else 200,
               oracle="R-src dis._get_instructions_bytes of CPython %d.%d" % vt if use_src else "table[operand]")
 
@@ -274,6 +296,7 @@ def generate(tier, seed):
         if has_interp(opc) and vt >= (3, 6):
             oracles.load_dis(vt)
         ext_op = getattr(opc, "EXTENDED_ARG", None)
+        huge_done = set()
         for op, cat in sorted(cat_ops(opc).items()):
             ks = (0, 1) if tier == "quick" else (0, 1, 2)
             if ext_op is None:
@@ -291,6 +314,11 @@ def generate(tier, seed):
                         obs.append(make_ob(tname, opc, op, cat, 0, False, tier))
                 if cat != "hascompare" and (k >= 1 or vt < (3, 6)):
                     obs.append(make_ob(tname, opc, op, cat, k, True, tier))
+            # tables with more than 65536 entries (word code: two prefixes; 16-bit operands: one prefix); quick: the first
+            # opcode of each category per table
+            if cat != "hascompare" and ext_op is not None and (tier == "thorough" or cat not in huge_done):
+                huge_done.add(cat)
+                obs.append(make_ob(tname, opc, op, cat, 2 if vt >= (3, 6) else 1, 2, tier))
     from props.corpus import corpus_ob
     obs.append(corpus_ob("C03", "argval", FUNCS))
     return obs
